@@ -278,6 +278,17 @@ def c08_case(ctx, rng, n_targets, kind, listener="none"):
                 if rcf != 0 or set(fblocks) != set(want_keys) or any(fblocks[k] != v for k, v in want_keys.items() if k in fblocks) or fjunk.strip():
                     show_bad.append({"filtered_show": flt, "rc": rcf, "printed": sorted("%s|%s|%s" % k for k in fblocks)[:8], "selected": sorted("%s|%s|%s" % k for k in want_keys)[:8]})
                 ctx.count("log_show_filtered")
+        # one selected log at a time: everything after the header line is exactly the bytes written, nothing appended (a log that does not
+        # end in a newline gets none), for every kind of output
+        singles = [(tp, sn, b"".join(d for d, _ in written[tp][sn])) for tp in sorted(written) for sn in ("stdout", "stderr")]
+        singles = [x for x in singles if x[2]]
+        unterminated = [x for x in singles if not x[2].endswith(b"\n")]
+        for tp, sn, want in (unterminated[:2] + singles[:2]):
+            rcs, _, _, raws = vlib.monorail(rr.repo, "log", "show", "--" + sn, "-t", tp, "-c", "build")
+            first, _, rest = raws.stdout.partition(b"\n")
+            if rcs != 0 or not HDR.match(first) or rest != want:
+                show_bad.append({"single_log_show": [sn, tp], "rc": rcs, "printed_after_header": len(rest), "wrote": len(want), "printed_tail": rest[-20:].decode("latin1"), "wrote_tail": want[-20:].decode("latin1")})
+            ctx.count("log_show_single_" + ("unterminated" if not want.endswith(b"\n") else "terminated"))
         ok = not bad and not show_bad and rcl == 0
         mid = any(p >= 500 and not d.endswith(b"\n") and d for s in written.values() for ch in s.values() for d, p in ch)
         ctx.record(case, True, agree and not bad, ok, True,
@@ -311,6 +322,12 @@ def c15_case(ctx, rng, n_targets, kill_at, flt):
         for t in cfg["targets"][:2]:
             script["build|%s" % t["path"]]["chunks"] += [[1, b"working...".hex(), 700], [2, b"still going".hex(), 650]]
             written[t["path"]]["stdout"].append((b"working...", 700)); written[t["path"]]["stderr"].append((b"still going", 650))
+    if "@burst" in flt:
+        flt = [x for x in flt if x != "@burst"]
+        t0p_ = cfg["targets"][0]["path"]
+        burst = [(b"burst line %05d\n" % i, 0) for i in range(3000)] + [(b"after the burst\n", 700), (b"and a last line\n", 0)]
+        script["build|%s" % t0p_] = {"chunks": [[1, b"".join(d for d, _ in burst[:3000]).hex(), 0], [1, burst[3000][0].hex(), 700], [1, burst[3001][0].hex(), 0]]}
+        written[t0p_] = {"stdout": burst, "stderr": []}
     if kill_at == "stalled":
         # one task writes steadily for four seconds, so that output is streamed while the listener is suspended and after it is killed
         t0p_ = cfg["targets"][0]["path"]
@@ -399,7 +416,7 @@ def make_wide_filter_case(rng, n):
         written[t["path"]] = {"stdout": so, "stderr": se}
     return {"targets": targets}, script, written
 
-def c20_case(ctx, rng, n_targets, flt, crlf=False, burst=0, paused=0, extra_cmds=(), long_line=0, cancel=False, wide=False):
+def c20_case(ctx, rng, n_targets, flt, crlf=False, burst=0, paused=0, extra_cmds=(), long_line=0, cancel=False, wide=False, quiet_gap=0):
     """paused > 0: whoever reads the listener's output (a pager, a slow pipe, a stopped job) does not read for that many seconds
     while the run produces far more than the pipe and socket buffers hold; afterwards it reads everything."""
     if wide:
@@ -408,6 +425,13 @@ def c20_case(ctx, rng, n_targets, flt, crlf=False, burst=0, paused=0, extra_cmds
     elif cancel: cfg, script, written = make_cancel_case(rng, n_targets)
     elif paused: cfg, script, written = make_volume_case(rng, n_targets, 2)
     else: cfg, script, written = make_burst_case(rng, n_targets, burst) if burst else make_case(rng, n_targets, "text")
+    if quiet_gap:
+        # all tasks fall silent at the same time for quiet_gap ms, then each writes two more lines
+        for t in cfg["targets"]:
+            k = "build|%s" % t["path"]
+            script[k]["chunks"] = [[1, b"before the gap\n".hex(), quiet_gap], [1, b"after the gap\n".hex(), 0], [2, b"after the gap (err)\n".hex(), 0]]
+            written[t["path"]] = {"stdout": [(b"before the gap\n", quiet_gap), (b"after the gap\n", 0)], "stderr": [(b"after the gap (err)\n", 0)]}
+        ctx.count("quiet_gap_%ds" % (quiet_gap // 1000))
     if long_line:
         # one newline-terminated line of several megabytes in the middle of a task's output (larger than any single write a
         # relay might make); not on the first target, whose stream is also replayed on the model
@@ -445,7 +469,7 @@ def c20_case(ctx, rng, n_targets, flt, crlf=False, burst=0, paused=0, extra_cmds
         except subprocess.TimeoutExpired: lst.kill()
         th.join(timeout=5)
         lo = bytes(got)
-        case = {"targets": n_targets, "filters": flt, "crlf": crlf, "burst": burst, "paused": paused, "extra_cmds": list(extra_cmds), "long_line": long_line, "cancel": cancel, "wide": wide, "script": script if not (burst or paused or long_line or cancel or wide) else "generated"}
+        case = {"targets": n_targets, "filters": flt, "crlf": crlf, "burst": burst, "paused": paused, "extra_cmds": list(extra_cmds), "long_line": long_line, "cancel": cancel, "wide": wide, "quiet_gap": quiet_gap, "script": script if not (burst or paused or long_line or cancel or wide) else "generated"}
         if wide: case["filters"] = ["--stdout", "--stderr", "-t", "<all but two of %d paths of ~130 characters>" % n_targets]; ctx.count("filter_line_over_4k")
         if out is None:
             ctx.record(case, True, False, False, True, detail={"what": "run failed", "rc": rc, "err": err}); return
@@ -503,7 +527,7 @@ def run(ctx, scale, focus):
         for n, kind, l in lplan * scale: c08_case(ctx, random.Random(rng.getrandbits(32)), n, kind, l)
     elif focus == "C15":
         plan = [("never", ["--stdout", "--stderr"]), (0.25, ["--stdout", "--stderr"]), ("before", ["--stdout"]), (0.7, ["--stderr", "-t", "t00"]), (0.05, ["--stdout", "--stderr"]),
-                ("handshake", ["--stdout", "--stderr"]), ("stalled", ["--stdout", "--stderr"]), ("never", ["--stdout", "--stderr", "-t", "@long"]), ("never", ["--stdout", "--stderr", "@tail"])]
+                ("handshake", ["--stdout", "--stderr"]), ("stalled", ["--stdout", "--stderr"]), ("never", ["--stdout", "--stderr", "@burst"]), ("never", ["--stdout", "--stderr", "-t", "@long"]), ("never", ["--stdout", "--stderr", "@tail"])]
         if not ctx.quick(): plan = plan * 10 + [(0.25, ["--stdout", "-t", "@long", "t00", "t01"]), ("never", ["--stderr", "-t"] + ["t%02d" % i for i in range(6)] + ["-c", "build", "lint", "test", "a-very-long-command-name-that-nobody-runs"])] * 3
         for kill_at, flt in plan * scale: c15_case(ctx, random.Random(rng.getrandbits(32)), rng.choice([4, 6]), kill_at, flt)
     else:
@@ -522,6 +546,9 @@ def run(ctx, scale, focus):
         # a filter that names dozens of long target paths (the filter line the run receives is several kilobytes long)
         for n in ([40] if ctx.quick() else [40, 64, 120]) * scale:
             c20_case(ctx, random.Random(rng.getrandbits(32)), n, [], wide=True)
+        # every admitted task silent for 31.5 s, then more output: the connection must still be there
+        for n in ([3] if ctx.quick() else [3, 2]) * scale:
+            c20_case(ctx, random.Random(rng.getrandbits(32)), n, ["--stdout", "--stderr"], quiet_gap=31500)
         for n, size in ([(3, 3000000)] if ctx.quick() else [(3, 3000000), (2, 2097153), (4, 5000000)]) * scale:
             c20_case(ctx, random.Random(rng.getrandbits(32)), n, ["--stdout", "--stderr"], False, 0, 0, (), long_line=size)
         for n, secs in ([(6, 3)] if ctx.quick() else [(6, 3), (8, 5), (4, 2)]) * scale:
@@ -534,5 +561,5 @@ def replay(ctx, case, focus):
     elif focus == "C08" and c.get("twice"): c08_twice_case(ctx, rng, c.get("first_is_longer", True))
     elif focus == "C08": c08_case(ctx, rng, c.get("targets", 4), c.get("kind", "mixed"), c.get("listener", "none"))
     elif focus == "C15": c15_case(ctx, rng, c.get("targets", 4), c.get("listener_killed", 0.25), c.get("filters", ["--stdout", "--stderr"]))
-    else: c20_case(ctx, rng, c.get("targets", 4), c.get("filters", ["--stdout", "--stderr"]), c.get("crlf", False), c.get("burst", 0), c.get("paused", 0), tuple(c.get("extra_cmds", ())), c.get("long_line", 0), c.get("cancel", False), c.get("wide", False))
+    else: c20_case(ctx, rng, c.get("targets", 4), c.get("filters", ["--stdout", "--stderr"]), c.get("crlf", False), c.get("burst", 0), c.get("paused", 0), tuple(c.get("extra_cmds", ())), c.get("long_line", 0), c.get("cancel", False), c.get("wide", False), c.get("quiet_gap", 0))
     return {"spec_failures": [d for _, d in ctx.spec_failures][:3], "disagreements": [d for _, d in ctx.tie_breaks][:3]}
